@@ -73,6 +73,13 @@ type monitor struct {
 	vios int
 }
 
+// scn tags a scenario configuration with its kind, so that a witness can be
+// replayed.
+type scn struct {
+	Type string `json:"type"`
+	Cfg  any    `json:"cfg"`
+}
+
 func newMonitor(r *ev.Run, scenario any, planFn func(int) cleanPlan) *monitor {
 	return &monitor{r: r, scenario: scenario, planFn: planFn, blocked: make(chan *blockedClean, 64)}
 }
@@ -326,7 +333,7 @@ func stressRound(r *ev.Run, cfg stressCfg) {
 	defer runtime.GOMAXPROCS(prev)
 	var planMu sync.Mutex
 	prng := r.Rand(21, uint64(cfg.Round))
-	m := newMonitor(r, cfg, func(idx int) cleanPlan {
+	m := newMonitor(r, scn{"invoker-stress", cfg}, func(idx int) cleanPlan {
 		planMu.Lock()
 		defer planMu.Unlock()
 		return cleanPlan{Yields: prng.IntN(12), Fail: prng.IntN(100) < cfg.FailPct, HonorCtx: prng.IntN(4) == 0}
@@ -461,7 +468,7 @@ func genScript(rng *rand.Rand) []scriptStep {
 // runStepped plays one script; it returns the number of cleaner calls.
 func runStepped(r *ev.Run, cfg steppedCfg) int {
 	r.Case("invoker-stepped script=%d fault=%s@%d waiters=%d", cfg.Script, cfg.Fault, cfg.FaultAt, cfg.Waiters)
-	m := newMonitor(r, cfg, func(idx int) cleanPlan {
+	m := newMonitor(r, scn{"invoker-stepped", cfg}, func(idx int) cleanPlan {
 		if idx != cfg.FaultAt {
 			return cleanPlan{Yields: idx % 3}
 		}
